@@ -381,6 +381,23 @@ Definition step (s : state) (o : op) : state :=
 
 Definition run (ops : list op) : state := fold_left step ops init.
 
+(* ---- a lookup whose TubConnector fails SYNCHRONOUSLY, inside getBrokerForTubRef: no usable location hint (none at
+   all, unknown type, malformed, the handler raises: NoLocationHintsError) or every endpoint refuses at once.
+   With a Broker or a live connector the hints are not even looked at: an ordinary lookup.  Otherwise the connector is
+   created, REGISTERED, connect() arms its timer, finds nothing to wait for (checkForFailure) and calls failed():
+   the timer is stopped and Tub.connectionFailed runs -- exactly the forced firing of the timer, with nothing
+   dialled in between.  It is therefore a derived operation: a schedule of the model. *)
+Definition nohints_ops (x : tubname) (s : state) : list op :=
+  match t_broker (tubof x s), t_connector (tubof x s) with
+  | None, None => [GetRef x; Timeout x]
+  | _, _ => [GetRef x]
+  end.
+(* schedule elements as the harness writes them: a model operation, or such a lookup *)
+Inductive hop := Plain (o : op) | GetRefNoHints (x : tubname).
+Definition hstep (s : state) (h : hop) : state :=
+  match h with Plain o => step s o | GetRefNoHints x => fold_left step (nohints_ops x s) s end.
+Definition hrun (hs : list hop) : state := fold_left hstep hs init.
+
 (* nothing in flight, every close seen by both ends *)
 Definition quiet_conn (k : conn) : bool :=
   match c_qms k, c_qsm k with
